@@ -20,12 +20,21 @@
 (*   "small"  a small universe for the pure model check / negative         *)
 (*            controls (no emission)                                       *)
 (*   "sim"    any family pair / triple, full alphabet (for -simulate)      *)
+(*   "hier"   three-level class hierarchies: instances of the ancestors    *)
+(*            and two instances of the leaf class x every history of       *)
+(*            length HierDepth over hash / == / dict put / dict get on     *)
+(*            every object: every order of first use of the classes        *)
+(*            ("hsmall": two of them, for model check and controls)        *)
+(*   "xtwin"  every catalogue member and its twin, "xnear" the near pairs, *)
+(*            "xdeep" representative pairs: one of the two objects arrives *)
+(*            by unpickling from another interpreter process (arr says     *)
+(*            how each object arrives), pair alphabet                      *)
 (***************************************************************************)
 EXTENDS C01_Objects, C01_Catalogue, Json
-CONSTANTS Sweeps, PairDepth, NearDepth, DeepDepth, EmitCases
-VARIABLES todo, hist, sweep
+CONSTANTS Sweeps, PairDepth, NearDepth, DeepDepth, HierDepth, XDepth, EmitCases
+VARIABLES todo, hist, sweep, arr
 
-vars == << objs, dict, last, todo, hist, sweep >>
+vars == << objs, dict, last, cmemo, todo, hist, sweep, arr >>
 
 \* unordered: keep (a, b) with a <= b by position
 UPairs == UNION { { << Families[i][a], Families[i][b] >> :
@@ -57,8 +66,14 @@ SmallPairs == {
     << Bin("Lookup", x, CStr("p")), Bin("Lookup", x, CStr("q")) >>,
     << CallKwN(ff, << x >>, Dct(A1B2)), CallKwN(ff, << x >>, Imm(<< KwE("b", Two), KwE("a", One) >>)) >> }
 
+\* how the objects of a tuple arrive (position by position; beyond its length: built here)
+XCombos == { << "pkh", "" >>, << "pkc", "" >>, << "pk", "" >>, << "", "pkh" >> }
+XSweeps == {"xtwin", "xnear", "xdeep", "xsmall"}
+Twins(P) == { << p[1], p[1] >> : p \in P }
+
 Init ==
-    /\ objs = << >> /\ dict = << >> /\ last = [ev |-> EvNew(NoneV), chk |-> "OK", dev |-> ""]
+    /\ objs = << >> /\ dict = << >> /\ cmemo = {}
+    /\ last = [ev |-> EvNew(NoneV), chk |-> "OK", dev |-> ""]
     /\ hist = << >>
     /\ sweep \in Sweeps
     /\ todo \in CASE sweep = "pairs" -> UPairsLE
@@ -66,7 +81,15 @@ Init ==
                   [] sweep = "deep"  -> RepPairs \cup RepTriples
                   [] sweep = "deepq" -> RepPairsQuick \cup RepTriplesQuick
                   [] sweep = "small" -> SmallPairs
-                  [] sweep = "sim"   -> UPairs \cup RepTriples
+                  [] sweep = "sim"   -> UPairs \cup RepTriples \cup HierTuples
+                  [] sweep = "hier"  -> HierTuples
+                  [] sweep = "hsmall" -> HierSmall
+                  [] sweep = "xtwin" -> { << sp, sp >> : sp \in AllSpecs }
+                  [] sweep = "xnear" -> NearPairs
+                  [] sweep = "xdeep" -> RepPairsQuick \cup Twins(RepPairsQuick)
+                  [] sweep = "xsmall" -> SmallPairs \cup Twins(SmallPairs)
+    /\ arr \in (IF sweep \in XSweeps THEN XCombos
+                ELSE IF sweep = "sim" THEN XCombos \cup { << >> } ELSE { << >> })
 
 (***************************************************************************)
 (* Alphabets                                                               *)
@@ -84,6 +107,14 @@ PairAlphabet ==
     IF N < 2 THEN { EvHash(1), EvEq(1, 1), EvPut(1, 1), EvGet(1) }
     ELSE { EvEq(1, 2), EvEq(2, 1), EvHash(2), EvPut(1, Len(hist)), EvGet(2) }
 
+\* plain uses of every object (what first runs the generated functions on a class)
+UseAlphabet ==
+    LET I == 1..N IN
+       { EvHash(i) : i \in I }
+  \cup UNION { { EvEq(i, j) : j \in I \ {i} } : i \in I }
+  \cup { EvPut(i, Len(hist)) : i \in I }
+  \cup { EvGet(i) : i \in I }
+
 FullAlphabet ==
     LET I == 1..N IN
        { EvHash(i) : i \in I }
@@ -92,7 +123,7 @@ FullAlphabet ==
   \cup { EvSetAttr(1, 0, fn) : fn \in FNSet(1) }
   \cup (IF N >= 2 THEN { EvSetAttr(1, 2, fn) : fn \in DiffFields(1, 2) } ELSE {})
   \cup { EvDelAttr(1, fn) : fn \in FNSet(1) }
-  \cup (IF N < 4 THEN { EvCopy(1, md) : md \in {"copy", "deepcopy"} }
+  \cup (IF N < 4 THEN { EvCopy(1, md) : md \in {"copy", "deepcopy", "pickle"} }
                    \cup { EvTouch(1, "rebuild") }
                    \cup (IF N >= 2 THEN { EvReplace(1, 2, fn) : fn \in DiffFields(1, 2) } ELSE {})
         ELSE {})
@@ -105,22 +136,30 @@ Depth == CASE sweep = "pairs" -> PairDepth
            [] sweep \in {"deep", "deepq"}  -> DeepDepth
            [] sweep = "small" -> DeepDepth
            [] sweep = "sim"   -> 1000
+           [] sweep \in {"hier", "hsmall"} -> HierDepth
+           [] sweep \in {"xtwin", "xsmall"} -> XDepth
+           [] sweep = "xnear" -> 1
+           [] sweep = "xdeep" -> PairDepth
 NNew == Len(SelectSeq(hist, LAMBDA e : e.op = "New"))
 NOps == Len(hist) - NNew
 
 Next ==
     IF Len(todo) > 0
-    THEN /\ Step(EvNew(Head(todo)))
-         /\ todo' = Tail(todo)
-         /\ hist' = Append(hist, EvNew(Head(todo)))
-         /\ UNCHANGED sweep
+    THEN LET md == IF NNew + 1 <= Len(arr) THEN arr[NNew + 1] ELSE ""
+              ev == EvNewVia(Head(todo), md)
+         IN /\ Step(ev)
+            /\ todo' = Tail(todo)
+            /\ hist' = Append(hist, ev)
+            /\ UNCHANGED << sweep, arr >>
     ELSE /\ NOps < Depth
          /\ N >= 1
          /\ ~Deviated          \* a behaviour ends at a named deviation, as a judged trace does
-         /\ \E ev \in (IF sweep \in {"pairs", "near"} THEN PairAlphabet ELSE FullAlphabet) :
+         /\ \E ev \in (IF sweep \in {"pairs", "near", "xtwin", "xnear", "xdeep"} THEN PairAlphabet
+                        ELSE IF sweep \in {"hier", "hsmall"} THEN UseAlphabet
+                        ELSE FullAlphabet) :
                /\ Step(ev)
                /\ hist' = Append(hist, ev)
-         /\ UNCHANGED << todo, sweep >>
+         /\ UNCHANGED << todo, sweep, arr >>
 
 Spec == Init /\ [][Next]_vars
 
